@@ -166,6 +166,7 @@ def run(ctx):
         # parser objects fed alternately - what one object pairs must not depend on the other object
         w = World(rnd, ts='any') if i % 2 == 0 else pend[-1][1]
         g = gen.ProgGen(w, rnd, ntids=3, noise=0.2, ood=0.15 if i % 3 == 0 else 0.0)
+        w.feed_pieces = rnd.random() < 0.3      # handed to the parser in consecutive pieces through feed_generator
         progs = [g.program(t, rnd.randrange(1, 4)) for t in (1, 2, 3)]
         stream = gen.interleave(rnd, progs)[:60]
         pend.append(('s%d' % i, w, stream))
